@@ -61,19 +61,50 @@ def run_bounded(prop, tier, seed, only=None):
             elif b.cases == 0:
                 rec["status"] = "error"
                 rec["what"] = "bounded check explored zero cases"
-        except Exception:
-            rec["status"] = "error"
-            rec["what"] = traceback.format_exc(limit=8)
+        except Exception as e:
+            rec["cases"] = b.cases
+            if _raised_by_code_under_check(e):
+                # the stand-ins feed only inputs inside the property's domain, where the property states a result:
+                # an exception that escapes from the repository's own frames is a violation with the case as witness
+                rec["status"] = "violation"
+                rec["what"] = f"the code under check raised {type(e).__name__}: {str(e)[:200]}"
+                rec["witness"] = {"case_number": b.cases, "traceback": traceback.format_exc(limit=-6)}
+                rec["failures"] = 1
+            else:
+                rec["status"] = "error"
+                rec["what"] = traceback.format_exc(limit=8)
         rec["time_s"] = round(time.time() - t0, 2)
         out.append(rec)
     return out
+
+
+def _raised_by_code_under_check(exc):
+    """True when the innermost frame that belongs to either the checker or the repository belongs to the repository."""
+    import os
+    here = os.path.dirname(os.path.dirname(os.path.abspath(__file__)))
+    last = None
+    tb = exc.__traceback__
+    while tb is not None:
+        fn = os.path.abspath(tb.tb_frame.f_code.co_filename)
+        if fn.startswith(here + os.sep):
+            last = "checker"
+        elif os.sep + "irispie" + os.sep in fn:
+            last = "repo"
+        tb = tb.tb_next
+    return last == "repo"
 
 
 def replay(rp):
     for bc in BOUNDED:
         if bc.name == rp["bounded_check"]:
             b = B(rp.get("tier", "quick"), rp.get("seed", 0))       # same tier and seed as the run that reported the failure
-            bc.fn(b)
+            try:
+                bc.fn(b)
+            except Exception as e:
+                if _raised_by_code_under_check(e):
+                    print(f"bounded check {bc.name} fails: the code under check raised {type(e).__name__}: {e} (case {b.cases})")
+                    return 1
+                raise
             if b.failures:
                 print(f"bounded check {bc.name} fails: {b.failures[0]}")
                 return 1
